@@ -5,22 +5,27 @@ char in_buf[FW]; int_t in_num, in_size;
 int_t g_n, g_w, g_po, g_pn, g_ln, g_pi, g_pw, g_lw, g_pc, g_ret; char g_buf0[FW];
 #if RB
 void @p@readrb(int_t *, int_t *, int_t *, @T@ **, int_t **, int_t **);
-int_t in_nrow, in_ncol, in_nonz; @T@ *in_nzval; int_t *in_rowind, *in_colptr; extern int g_fields_delivered;
+int_t in_nrow, in_ncol, in_nonz; @T@ *in_nzval; int_t *in_rowind, *in_colptr; extern int g_fields_delivered, g_fgets_calls;
 #else
 int_t @p@ParseIntFormat(char *, int_t *, int_t *);
 #endif
-void h_fmt(void) {
-#if RB
-  g_fields_delivered = 0;
-  @p@readrb(&in_nrow, &in_ncol, &in_nonz, &in_nzval, &in_rowind, &in_colptr);
-  if (g_fields_delivered == 2) __CPROVER_assert(0, "canary: both integer descriptors of the header went through the contract");
-#else
-  g_ret = @p@ParseIntFormat(in_buf, &in_num, &in_size);
-#endif
+static void canaries(void) {
   __CPROVER_assert(0, "canary: parser returns");
   if (g_po > 0 && g_pn > g_po + 1 && g_pi > g_pn + g_ln && g_pw > g_pi + 1 && g_pc > g_pw + g_lw) __CPROVER_assert(0, "canary: blanks at every legal place");
   if (g_pc == FW - 1 && g_po == 0) __CPROVER_assert(0, "canary: descriptor fills the field");
   if (g_n == 99 && g_w == 99) __CPROVER_assert(0, "canary: two-digit values");
   if (g_buf0[g_pi] == 'i') __CPROVER_assert(0, "canary: lower case");
   if (g_n == 16 && g_w == 5 && g_po == 0 && g_pc == 5) __CPROVER_assert(0, "canary: (16I5)");
+}
+#if RB
+void rb_canaries(void) { canaries(); }
+#endif
+void h_fmt(void) {
+#if RB
+  g_fields_delivered = 0; g_fgets_calls = 0;
+  @p@readrb(&in_nrow, &in_ncol, &in_nonz, &in_nzval, &in_rowind, &in_colptr);
+#else
+  g_ret = @p@ParseIntFormat(in_buf, &in_num, &in_size);
+#endif
+  canaries();
 }
